@@ -122,13 +122,6 @@ def one_case(rng, res, intern, stream, params0, flavour, fresh, label, n_edits):
     res.count("skipped:" + type(e).__name__)
     return
   args, kwargs = l1.gen_ctor_args(rng, params, fresh)
-  if any(p.kind == "VarKw" for p in params) and rng.random() < 0.15:
-    # legal Python: a keyword named like a positional-only / variadic parameter goes to **kwargs
-    cands = [p.name for p in params if p.kind in ("PosOnly", "VarPos")]
-    posonly_unbound = [p.name for i, p in enumerate(params) if p.kind == "PosOnly" and i >= len(args)]
-    cands = [c for c in cands if c not in posonly_unbound]
-    if cands:
-      kwargs[rng.choice(cands)] = fresh()
   try:
     cfg = fdl.Config(fn, *args, **kwargs)
   except TypeError:
